@@ -173,6 +173,13 @@ impl Ctx {
         }
     }
 
+    /// keep this sample regardless of the thinning rule (engine-level samples)
+    pub fn sample_force(&mut self, v: Value) {
+        if self.samples.len() < MAX_SAMPLES + 4 {
+            self.samples.insert(0, v);
+        }
+    }
+
     pub fn fail(&mut self, sub: &str, case: Value, expected: String, actual: String, site: Option<String>) {
         if self.total_only && !actual.starts_with("PANIC") {
             return;
